@@ -11,11 +11,11 @@ import (
 	"pgregory.net/rapid"
 
 	"verif/evid"
-	"verif/typedx"
 	"verif/known"
 	"verif/nodes"
 	"verif/refcbor"
 	"verif/tschema"
+	"verif/typedx"
 	"verif/val"
 )
 
